@@ -116,6 +116,19 @@ impl JwkStorage for StrongholdStorage {
       }
     }
     let secret_key = ed25519::expand_secret_jwk(&jwk)?;
+    // Signing only uses the private component: a public component that does not belong to it would make every
+    // signature for this key id fail to verify under the key's own public JWK.
+    let x: Vec<u8> = jwk
+      .try_okp_params()
+      .ok()
+      .and_then(|params| jwu::decode_b64(params.x.as_str()).ok())
+      .unwrap_or_default();
+    if x.as_slice() != secret_key.public_key().as_ref() {
+      return Err(
+        KeyStorageError::new(KeyStorageErrorKind::Unspecified)
+          .with_custom_message("the public key component of the Jwk does not belong to its private key component"),
+      );
+    }
     let key_id: KeyId = random_key_id();
 
     let location = Location::generic(
